@@ -4,7 +4,7 @@ import json
 from hypothesis import strategies as st
 
 from .. import common, gen, render
-from ..canon import loose
+from ..canon import loose, strict
 from ..core import Outcome, guard, hyp_drive
 
 ID = 'C06'
@@ -163,7 +163,7 @@ def verify(case, out, d, a, b, tag):
         if loose(got) != want:
             out.fail(f'{name}-document-differs', f"{tag}dropping {'inserted' if drop == 'I' else 'removed'} text reads back {got!r}, "
                                                 f"{name} document is {doc!r}; text={text[:300]!r}")
-    if marks and la == lb:
+    if marks and la == lb and strict(a) == strict(b):       # (a number re-spelled as int / float may be shown as a change)
         out.fail('marks-on-equal-documents', f"{tag}a={a!r} b={b!r}; text={text[:200]!r}")
     if not marks and la != lb:
         out.fail('no-marks-on-different-documents', f"{tag}a={a!r} b={b!r}; text={text[:200]!r}")
